@@ -227,13 +227,21 @@ func (d *Decoder) DecodeWithOption(v interface{}, optFuncs ...DecodeOptionFunc) 
 		return err
 	}
 	if err := d.s.PrepareForDecode(); err != nil {
+		if rerr := d.s.ReadErr(); rerr != nil {
+			return rerr
+		}
 		return err
 	}
 	s := d.s
 	for _, optFunc := range optFuncs {
 		optFunc(s.Option)
 	}
-	if err := dec.DecodeStream(s, 0, header.ptr); err != nil {
+	err = dec.DecodeStream(s, 0, header.ptr)
+	if rerr := s.ReadErr(); rerr != nil {
+		// the input did not end: the reader failed while the value was being read
+		return rerr
+	}
+	if err != nil {
 		return err
 	}
 	s.Reset()
